@@ -280,6 +280,10 @@ struct Val {
   bool regrouped = false;
   // some Boolean upstream combined operands placed a few epsilons apart (nearly coincident surfaces)
   bool nearEps = false;
+  // a Refine upstream ran on an operand that carried a halfedgeTangent array although nothing in this
+  // workload creates tangents (CsgLeafNode::Compose allocates an all-zero one): Refine then treats the
+  // mesh as smooth. Witnesses downstream get their own key prefix.
+  bool phantom = false;
   size_t tris = 0;
   bool checkedOK = false;
 };
@@ -544,6 +548,7 @@ struct Prog {
     v.planeCut = a.planeCut;
     v.regrouped = a.regrouped;
     v.nearEps = a.nearEps;
+    v.phantom = a.phantom;
     v.tris = a.tris;
     return v;
   }
@@ -660,6 +665,7 @@ struct Prog {
         v.planeCut = a.planeCut || b.planeCut;
         v.regrouped = a.regrouped || b.regrouped;
         v.nearEps = a.nearEps || b.nearEps;
+        v.phantom = a.phantom || b.phantom;
         v.tris = (a.tris + b.tris) * 2 + 16;
         return {add(std::move(v))};
       }
@@ -692,6 +698,7 @@ struct Prog {
           v.planeCut = v.planeCut || b.planeCut;
           v.regrouped = v.regrouped || b.regrouped;
           v.nearEps = v.nearEps || b.nearEps;
+          v.phantom = v.phantom || b.phantom;
           tot += pool[j].tris;
           d += b.how + (i + 1 < n ? "," : "");
         }
@@ -721,6 +728,7 @@ struct Prog {
           v.planeCut = a.planeCut || b.planeCut;
           v.regrouped = a.regrouped || b.regrouped;
         v.nearEps = a.nearEps || b.nearEps;
+        v.phantom = a.phantom || b.phantom;
           v.tris = (a.tris + b.tris) * 2;
           out.push_back(add(std::move(v)));
         }
@@ -759,6 +767,10 @@ struct Prog {
       }
       case 14: case 15: {  // refinements (no tangents anywhere in this workload)
         Val v = a;
+        if (a.m.Status() == Manifold::Error::NoError && !a.m.GetMeshGL64().halfedgeTangent.empty()) {
+          v.phantom = true;
+          c.count("refine_operands_with_phantom_tangents");
+        }
         if (r.chance(0.6)) {
           int n = r.range(2, 3);
           if (tooBig(a.tris * n * n)) return {leaf()};
@@ -785,7 +797,7 @@ struct Prog {
         if (!std::isfinite(s) || s <= 0) s = 1;
         double tol = r.chance(0.3) ? 0.0 : s * pow(10.0, r.uni(-6, -1.5));
         Val v = a;
-        if (tol > a.m.GetTolerance()) v.regrouped = true;
+        v.regrouped = true;  // any simplification: outside the statement's program class
         if (r.chance(0.6)) {
           c.site("Simplify");
           v.m = a.m.Simplify(tol);
@@ -815,6 +827,7 @@ struct Prog {
         v.insts = {{(uint32_t)id, Ident()}};
         v.tris = a.tris;
         v.nearEps = a.nearEps;  // slivers left by a nearly coincident Boolean stay in the new original
+        v.phantom = false;      // the new original's source is its own (already refined) export
         c.count("orig_asoriginal");
         return {add(std::move(v))};
       }
@@ -832,6 +845,7 @@ struct Prog {
         v.planeCut = a.planeCut;
         v.regrouped = a.regrouped;
         v.nearEps = a.nearEps || b.nearEps;
+        v.phantom = a.phantom || b.phantom;
         v.tris = a.tris * 4 + 16;
         return {add(std::move(v))};
       }
@@ -877,7 +891,7 @@ bool observe(Prog& P, int vi) {
   }
   MeshGL64 g = v.m.GetMeshGL64();
   auto fail = [&](const std::string& key, vh::J& j) {
-    c.violation(key, j.s("step", v.how).raw("mesh", vo::MeshBrief(g)).raw("program", P.programJson()).str());
+    c.violation((v.phantom ? "phantom-tangents:" : "") + key, j.s("step", v.how).raw("mesh", vo::MeshBrief(g)).raw("program", P.programJson()).str());
     return false;
   };
   const size_t nt = g.triVerts.size() / 3, nr = g.runOriginalID.size();
@@ -998,7 +1012,8 @@ bool observe(Prog& P, int vi) {
     // Simplify/SetTolerance were relabelled by the library; the statement's
     // program class excludes simplification, so for such runs only 'lies on
     // the transformed source surface' is checked (whole mesh as one face).
-    const bool wholeMode = v.regrouped && !o->userFaceIDs;
+    const bool wholeMode = v.regrouped;
+    if (wholeMode && v.nearEps) { c.count("runs_simplified_after_few_epsilon_skipped"); continue; }
     if (wholeMode) {
       if ((t1 - t0) * o->whole.tris.size() > 3000000) { c.count("runs_regrouped_skipped_too_large"); continue; }
       c.count("runs_regrouped_whole_surface_only");
@@ -1071,7 +1086,7 @@ bool observe(Prog& P, int vi) {
         j.u("originalID", id).u("run", run).u("faceID", fid).u("tri", t).d("distance", (double)dUnion).d("bound", (double)B).d("export_tolerance", g.tolerance)
             .d("slack", v.slack).s("out_tri", P3(q[0]) + P3(q[1]) + P3(q[2])).s("runTransform_rows", MatStr(T)).u("face_source_tris", nf).s("original", o->desc)
             .bo("backside", back);
-        return fail(std::string("geom:triangle-off-its-source-face:") + (v.nearEps ? "few-epsilon-ancestry:" : "") + kind, j);
+        return fail(std::string(wholeMode ? "geom:off-source-surface-after-simplification:" : "geom:triangle-off-its-source-face:") + (v.nearEps ? "few-epsilon-ancestry:" : "") + kind, j);
       }
       if (wholeMode) { c.count("tris_regrouped_geometry_only"); continue; }
       // ---- orientation
@@ -1081,10 +1096,16 @@ bool observe(Prog& P, int vi) {
         LD lmax = std::max({vo::norm(q[1] - q[0]), vo::norm(q[2] - q[1]), vo::norm(q[0] - q[2])});
         LD alt = lmax > 0 ? a2 / lmax : 0;
         int src = -1;
-        for (size_t s = 0; s < nf; s++)
-          if (dmaxPerSrc[s] <= B && F.alt[s] > 8 * B && (src < 0 || F.alt[s] > F.alt[src])) src = (int)s;
-        V3 ns{0, 0, 0};
         bool decidable = alt > 8 * B;
+        // candidates: source triangles the whole output triangle lies on; one with the right orientation suffices
+        // (a coplanar face may hold coincident triangles of both orientations)
+        for (size_t s = 0; s < nf && decidable; s++)
+          if (dmaxPerSrc[s] <= B && F.alt[s] > 8 * B) {
+            LD dps = vo::dot(n, F.nrm[s]);
+            if (src < 0 || (back ? dps < 0 : dps > 0)) src = (int)s;
+            if (back ? dps < 0 : dps > 0) break;
+          }
+        V3 ns{0, 0, 0};
         if (decidable && src >= 0) ns = F.nrm[src];
         else if (decidable) {
           // spans several source triangles: usable only if they all share one normal
